@@ -71,6 +71,26 @@ def meta_rules(facts, rep):
     return ok
 
 
+def nocodec_rules(facts, rep):
+    """a raw copy moves bytes it does not interpret: nothing on its way (raw_copy_file_rename, the shared start_entry) may decide on
+    the source's compression method -- an entry stored with a method this build cannot decode (LZMA, Deflate64, a disabled feature)
+    is copied like any other.  (The method is interpreted only where a codec is needed: switch_to / make_reader.)"""
+    from engine.paths import paths as _paths
+    rule = "C14-NOCODEC"
+    ok = True
+    for pat in (ZW + "raw_copy_file_rename$", ZW + "start_entry$"):
+        f = facts.one(pat)
+        hits = set()
+        for p in _paths(f, max_paths=20000):
+            for a_, v_ in p["decisions"]:
+                if a_ != "#iter" and re.search(r"^discr\([^()]*compression_method\)$|^discr\(ZipFile::compression\(|CompressionMethod as std::cmp::PartialEq|^PartialEq::eq\([^)]*compression", a_):
+                    hits.add(a_[:70])
+        ok &= rep.check(not hits, rule, "method-not-interpreted@%s" % f.path.split("::")[-1], where(f, f.span), "no branch on the compression method on the raw-copy path",
+                        "%s branches on the compression method (%s): a source entry with a method the crate cannot decode is no longer copied verbatim" % (f.path.split("::")[-1], sorted(hits)[:2]))
+    rep.floor(rule, 2)
+    return ok
+
+
 def bytes_rules(facts, rep):
     rule = "C14-BYTES"
     ok = True
@@ -145,6 +165,7 @@ def run(ctx, rep):
         "it. Bit-equality for all sources follows from these given a readable source; it is not itself decided.")
     meta_rules(facts, rep)
     bytes_rules(facts, rep)
+    nocodec_rules(facts, rep)
     raw_rules(facts, rep)
     name_rules(facts, rep)
     patch_rules(facts, rep, rule="C14-PATCH")
@@ -155,6 +176,10 @@ def run(ctx, rep):
     from rules.shared_codec import writer_table
     writer_table(facts, rep, "C14-LFH", facts.one(r"^write::write_local_file_header$"), "LFH", ctx.spec("appnote.json"), Codec(facts), tail_optional=("extra",))
     rep.floor("C14-LFH", 8)
+    from rules.shared_typestate import typestate_rules
+    typestate_rules(facts, rep, rule="C14-TSX")     # "neighbouring entries written normally before or after it are unaffected": the raw flag / accounting over all call sequences
+    from rules.C13 import raw_rules as _raw13
+    _raw13(facts, rep)                 # reported as C14/C13-RAW
     from rules.shared_zip64 import pair_rules
     pair_rules(ctx, facts, rep, rule="C14-Z64", side="write")   # a copy of a ZIP64-sized entry carries its sizes in the 64-bit slots they belong to
     from rules.C02 import limit_rules
